@@ -23,7 +23,7 @@ from dyn_gen import index
 #   sd          which jobs receive co_shutdown()                     sdto     which handlers are cancelled
 #   sdvalue     value returned by co_shutdown()
 ALWAYS = {"env:A1", "env:guard", "guard", "bad", "harness:translate"}
-ALL = {"start", "slot-limit", "eager", "urgent", "exit", "cancel", "verdict", "diag", "sd", "sdto", "sdvalue"}
+ALL = {"start", "slot-limit", "eager", "urgent", "exit", "cancel", "verdict", "diag", "sd", "sdto", "sdvalue", "final", "stats"}
 RELEVANT = {
     "C01": ("A", {"start"}),
     "C02": ("AB", {"start", "exit", "verdict"}),
@@ -38,7 +38,7 @@ RELEVANT = {
     "C11": ("AB", {"start", "cancel", "urgent", "sd", "sdto"}),
     "C12": ("A", {"start", "eager", "urgent", "slot-limit"}),
     "C13": ("AB", {"cancel", "urgent", "sd", "sdto", "sdvalue"}),
-    "C14": ("A", {"start"}),
+    "C14": ("AB", {"start", "final", "stats"}),
 }
 
 
@@ -118,6 +118,19 @@ def res_token(ids, line):
     if x.startswith("orch:"):
         return "xo%d" % ids.get(x[5:], 9999)
     return "x?"
+
+
+def final_tokens(r, ids):
+    """-> (fin, stats): the inspection API of every job right after the run (four bits: idle, scheduled, running,
+    done) and the four numbers of stats() of every scheduler, for the `final` / `stats` comparison of replayB"""
+    fin = ["%d:%s" % (ids[n], "".join("1" if b else "0" for b in v[:4]))
+           for n, v in sorted((r.get("final") or {}).items()) if n in ids and ids[n] != 0]
+    st = []
+    for n, text in sorted((r.get("stats") or {}).items()):
+        if n in ids:
+            m = re.fullmatch(r"(\d+)D \+ (\d+)R \+ (\d+)I = (\d+)", text) if isinstance(text, str) else None
+            st.append("%d:%s" % (ids[n], ".".join(m.groups()) if m else "X"))
+    return ",".join(fin) or "-", ",".join(st) or "-"
 
 
 def why_token(why):
@@ -548,7 +561,8 @@ def replay_all(pid, traces, res, drv):
         cases.append((sc, "A", len(A)))
         if "B" in layers and not sc.get("rerun"):
             # (a second run of the same object does not shut its jobs down again: `_did_shutdown` is for life)
-            lines.append("replayB %s diag=%s ev=%s" % (cfg, diag, ";".join(B)))
+            fin, stats = final_tokens(r, ids) if "hang" not in r else ("-", "-")
+            lines.append("replayB %s diag=%s fin=%s stats=%s ev=%s" % (cfg, diag, fin, stats, ";".join(B)))
             cases.append((sc, "B", len(B)))
     outs = drv.ask(lines)
     nev = {"A": 0, "B": 0}
